@@ -210,6 +210,9 @@ func main() {
 	addKey("a-second-object", a, aPriv, a2pk)
 	addKey("r-a", negA, mkPriv(negA), mkPriv(negA).PublicKey())
 	addKey("identity", new(big.Int), nil, crypto.IdentityBLSPublicKey())
+	if zsk, err := crypto.AggregateBLSPrivateKeys([]crypto.PrivateKey{aPriv, mkPriv(negA)}); err == nil {
+		addKey("identity-as-public-key-of-aggregated-private-keys", new(big.Int), nil, zsk.PublicKey())
+	}
 	factors = []*big.Int{new(big.Int).SetBytes(material(31, 3, 0))}
 	t3, err := refbls.TorsionG1(3)
 	if err != nil {
